@@ -29,6 +29,9 @@ func vq2SchemaText(m *vq2Model) string {
 		if f.Kind == "set" {
 			fmt.Fprintf(&sb, "(%s)", f.Cache)
 		}
+		if f.Kind == "int" {
+			fmt.Fprintf(&sb, "(%d..%d)", f.Min, f.Max)
+		}
 	}
 	return sb.String()
 }
@@ -69,7 +72,7 @@ func vq2GenWrite(t *rapid.T, m *vq2Model, cols []uint64, g *vq2ExprGen) vq2Op {
 	case "set":
 		f := pick("set", "time", "int", "mutex", "bool")
 		if f.Kind == "int" {
-			return vq2Op{Kind: "setint", Field: f.Name, Col: col(), Val: rapid.OneOf(rapid.SampledFrom([]int64{0, 1, 7, 8, 1000}), rapid.Int64Range(0, 1000)).Draw(t, "val")}
+			return vq2Op{Kind: "setint", Field: f.Name, Col: col(), Val: vq2GenIntVal(t, f, "val")}
 		}
 		o := vq2Op{Kind: "set", Field: f.Name, Row: row(f), Col: col()}
 		if f.Kind == "time" && rapid.IntRange(0, 3).Draw(t, "ts?") > 0 {
@@ -79,9 +82,8 @@ func vq2GenWrite(t *rapid.T, m *vq2Model, cols []uint64, g *vq2ExprGen) vq2Op {
 		return o
 	case "clear":
 		f := pick("set", "time", "mutex", "bool")
-		if f.Kind == "time" && f.NoStd {
-			// Clear on a field without standard view: finding D22 (group gT); use ClearRow there instead.
-			return vq2Op{Kind: "clearrow", Field: f.Name, Row: row(f)}
+		if tf := m.field("t1"); tf != nil && rapid.IntRange(0, 2).Draw(t, "clearTime?") == 0 {
+			f = tf // Clear on time fields (all views, with and without a standard view) gets extra weight
 		}
 		// prefer a bit that is set
 		type bit struct{ r, c uint64 }
